@@ -277,7 +277,7 @@ def run_c07(ctx):
 def alias_rewrite(p, rng):
     for pk in p["packets"]:
         for f in all_fields(pk["fields"]):
-            if f["kind"] == "scalar" and rng.random() < 0.7:
+            if f["kind"] in ("scalar", "length", "checksum") and not f.get("typeless") and rng.random() < 0.7:
                 f["alias"] = not f.get("alias")
             if f["kind"] == "dyn" and rng.random() < 0.7:
                 f["spelling"] = "char[]" if f["spelling"] == "string" else "string"
